@@ -6,7 +6,7 @@ import sys,subprocess,shutil,os,json,tempfile,glob,concurrent.futures
 here=os.path.dirname(os.path.dirname(os.path.abspath(__file__)))
 args=[a for a in sys.argv[1:] if not a.startswith("-")]; allprops="-a" in sys.argv
 env=dict(os.environ, GOFLAGS="-mod=mod", GOPROXY="off", GOSUMDB="off", GOTOOLCHAIN="local", GOWORK="off")
-reg=sorted({l.split()[0] for l in subprocess.check_output([here+"/bin/anycheck","-list"],text=True).splitlines()})
+reg=sorted({l.split()[0] for l in subprocess.check_output([os.environ.get("ANYCHECK",here+"/bin/anycheck"),"-list"],text=True).splitlines()})
 items=[]
 idx=json.load(open(here+"/mutants/INDEX.json")) if os.path.exists(here+"/mutants/INDEX.json") else {}
 for p in sorted(glob.glob(here+"/mutants/*.diff")):
@@ -24,7 +24,7 @@ def one(it):
         res={}
         for p in (reg if allprops else [prop]):
             if p not in reg: res[p]="no-check"; continue
-            r=subprocess.run([here+"/bin/anycheck","-repo",d+"/r","-prop",p,"-tier","quick","-known",here+"/KNOWN_FINDINGS.txt","-replaydir",d+"/rp"],capture_output=True,text=True,env=env)
+            r=subprocess.run([os.environ.get("ANYCHECK",here+"/bin/anycheck"),"-repo",d+"/r","-prop",p,"-tier","quick","-known",here+"/KNOWN_FINDINGS.txt","-replaydir",d+"/rp"],capture_output=True,text=True,env=env)
             first=[l for l in r.stdout.splitlines() if ": C" in l and ("VIOLATED" in l or "UNDECIDED" in l or "ANCHOR" in l)]
             res[p]={"exit":r.returncode,"first":(first[0].replace(d+"/r/","")[:230] if first else (r.stderr.strip()[:200] if r.returncode==2 else ""))}
         return (name,prop,tp,res)
